@@ -46,6 +46,10 @@ CHECKS = {
    text="Explicit-state BFS over operation histories on a leader with its real append-only log; at every reached state the queue is drained, the node killed and a fresh node started on the same (in-memory) directory; recovered holds are compared with the persisted live holds before the stop (identity, depth, Count, Rcount, value, deadline tolerance), for several buffer sizes and a rotation threshold that spreads histories over several files.",
    note="Trusted: instrumenter+runtime, vos in-memory file system (completed write = durable), classification of 'persisted' from the statement (flag / age >= delay+2s).",
    technique="explicit-state model checking by replay with stop/restart at every state, differential oracle before/after restart"),
+ "C08": dict(level="fault_enumeration", design="4/C08",
+   text="For each workload history every truncation length of the newest append file and of its value file, and the directory image after every file-system call, is recovered by a fresh node: start must succeed, the recovered state must be that of a clean record prefix not longer than the complete records present, and a second restart must recover what was persisted after the first.",
+   note="Trusted: instrumenter+runtime, vos in-memory file system and its FS-point numbering, the implementation's loader on record-boundary cuts as reference for prefix states.",
+   technique="exhaustive crash-point / torn-write enumeration on the implementation with differential recovery oracle"),
 }
 NA_DEFAULT = "check not built yet in this round (planned: see DESIGN.md section 4)"
 
